@@ -162,7 +162,7 @@ Lemma rt_step_sinv : forall st ev tr,
   rt_ev_ok ev -> rt_rel tr (rs_uid st) (rt_nodes (rs_q st)) -> rt_sinv tr st ->
   let (st', o) := rt_step st ev in rt_sinv (tr ++ o) st'.
 Proof.
-  intros st ev tr Hev R S. destruct ev as [dt|s m b cfg r| |s m|s m|s m tok|s reason|tmo|]; cbn [rt_step].
+  intros st ev tr Hev R S. destruct ev as [dt|s m b cfg r| |s m|s m|s m tok|s reason|s m|tmo|]; cbn [rt_step].
   - rewrite app_nil_r. destruct S as (F & C & Z0). split; [exact F|split; [exact C|exact Z0]].
   - unfold rt_send. set (T := fp_calc_timeout _ _ _ _ _).
     set (n := sq_mk_node _ _ _ _ _ _ _). set (st1 := rt_mk_state _ _ _ _).
@@ -249,6 +249,12 @@ Proof.
     apply rt_sinv_no_tx.
     + destruct rm; [intros u; reflexivity|apply rt_no_tx_nacked].
     + apply rt_sinv_sub; [exact S|]. intros e I. rewrite A in I. apply filter_In in I. tauto.
+  - unfold rt_delete. destruct (sq_remove (rs_q st) s m) as [[[t n] q']|] eqn:Rm.
+    + destruct (sq_remove_others _ (rs_base st) _ _ _ _ _ Rm) as (l1 & l2 & d & E1 & E2 & _ & _).
+      apply rt_sinv_no_tx; [intros u; reflexivity|]. apply rt_sinv_sub; [exact S|].
+      intros e I. rewrite E2 in I. rewrite E1. apply in_app_or in I. apply in_or_app.
+      destruct I; [left|right; right]; assumption.
+    + rewrite app_nil_r. exact S.
   - unfold rt_io_process, rt_fire_all.
     pose proof (rt_fire_sinv (rt_budget (rs_q st)) st tr R S) as H1.
     pose proof (rt_fire_rel (rt_budget (rs_q st)) st tr R) as H1r.
@@ -442,7 +448,7 @@ Lemma rt_step_ginv : forall st ev tr,
   rt_ev_ok ev -> rt_rel tr (rs_uid st) (rt_nodes (rs_q st)) -> rt_sinv tr st -> rt_giveups_ok tr ->
   rt_giveups_ok (tr ++ snd (rt_step st ev)).
 Proof.
-  intros st ev tr Hev R S G. destruct ev as [dt|s m b cfg r| |s m|s m|s m tok|s reason|tmo|]; cbn [rt_step].
+  intros st ev tr Hev R S G. destruct ev as [dt|s m b cfg r| |s m|s m|s m tok|s reason|s m|tmo|]; cbn [rt_step].
   - cbn. rewrite app_nil_r. exact G.
   - unfold rt_send. cbn [snd]. apply rt_giveups_app; [exact G|]. repeat constructor.
   - unfold rt_tick, rt_fire_all.
@@ -507,6 +513,9 @@ Proof.
   - unfold rt_disconnect. destruct (sq_cancel (rt_sess_match s) (rs_q st)) as [rm q']. cbn [snd].
     apply rt_giveups_app; [exact G|]. destruct rm as [|n rm]; [repeat constructor|].
     apply rt_no_giveup_nacked. cbn in Hev. tauto.
+  - unfold rt_delete. destruct (sq_remove (rs_q st) s m) as [[[t n] q']|]; cbn [snd].
+    + apply rt_giveups_app; [exact G|repeat constructor].
+    + rewrite app_nil_r. exact G.
   - unfold rt_io_process, rt_fire_all.
     pose proof (rt_fire_sinv (rt_budget (rs_q st)) st tr R S) as H1.
     pose proof (rt_fire_rel (rt_budget (rs_q st)) st tr R) as H1r.
